@@ -36,8 +36,8 @@ class C11(common.ModelProperty):
     title = "adjacency builders build exactly the described graph; bad input rejected whole"
     max_steps = 80
     budget = {
-        "quick": {"runs": 24000, "wall_cap_s": 600},
-        "thorough": {"runs": 2000000, "wall_cap_s": 3000},
+        "quick": {"runs": 80000, "wall_cap_s": 600},
+        "thorough": {"runs": 3000000, "wall_cap_s": 5400},
     }
     rule = (
         "one evaluation = one seeded history in which load_adj_dict / load_adj_matrix are "
